@@ -46,5 +46,64 @@ Proof.
   all: try wake_cases; sumf_norm; meas_simpl; rewrite ?app_length; cbn [length] in *.
   all: intros HF; try specialize (I HF); try specialize (FC HF); try lia.
   all: repeat match goal with E : _ \/ _ |- _ => destruct E end; try congruence; try lia.
-  Show.
 Qed.
+
+Definition invE (s : state) : Prop :=
+  closed s = true -> flushed s = true \/ sumf pending_flush (tasks s) >= 1.
+
+Lemma E_step : forall s t s', step s t = Some s' -> nocancel_state s -> invE s -> invE s'.
+Proof.
+  intros s t s' H N I. step_inv H; simp_proj; unfold invE in *; simp_proj; try exact I.
+  all: try nocancel_contra.
+  all: try (intros _; left; reflexivity).
+  all: try match goal with |- context [after_item ?o _] => destruct o; cbn [after_item fst snd] in * end.
+  all: try wake_cases; sumf_norm; meas_simpl.
+  all: intros HC; try (destruct (I HC) as [HF|HP]; [left; exact HF|right; lia]).
+  all: try (right; lia).
+  all: left; assumption.
+Qed.
+
+(* ---- F: every sentinel is behind all the items sent before close() ---- *)
+Definition invF (s : state) : Prop :=
+  has_flush (q s) = true -> npre s <= length (recv s) + nf (q s).
+
+Lemma nf_app_noflush : forall a b, has_flush a = false -> nf (a ++ b) = length a + nf b.
+Proof.
+  induction a as [|x a IH]; intros b H; cbn in *; auto. destruct x; cbn in *; [|discriminate].
+  rewrite IH; auto.
+Qed.
+Lemma nf_app_flush : forall a b, has_flush a = true -> nf (a ++ b) = nf a.
+Proof.
+  induction a as [|x a IH]; intros b H; cbn in *; [discriminate|]. destruct x; cbn in *; auto.
+Qed.
+Lemma reals_noflush : forall a, has_flush a = false -> reals a = a.
+Proof.
+  induction a as [|x a IH]; intros H; cbn in *; auto. destruct x; cbn in *; [|discriminate]. f_equal. apply IH; auto.
+Qed.
+
+Lemma F_step : forall s t s', step s t = Some s' ->
+  hist_body s -> (closed s = true -> npre s <= length (sent s)) ->
+  (flushed s = true -> closed s = true) -> (flushed s = false -> sumf nflush (tasks s) = 0) ->
+  (has_flush (q s) = true -> flushed s = true) ->
+  invF s -> invF s'.
+Proof.
+  intros s t s' H [HS HU] NP FC NFl HFl I. step_inv H; simp_proj; unfold invF in *; simp_proj; try exact I.
+  all: try (rewrite has_flush_app; destruct (has_flush (q s)) eqn:EH;
+            [ rewrite nf_app_flush by auto; intros _; apply I; reflexivity
+            | rewrite nf_app_noflush by auto; cbn [has_flush existsb is_real negb orb nf]; try (intros HF; discriminate HF) ]).
+  all: repeat match goal with E : q _ = _ |- _ => rewrite E in *; clear E end.
+  all: cbn [has_flush existsb is_real negb orb nf length] in *; rewrite ?app_length; cbn [length].
+  all: try (exfalso; lia).
+  all: try (intros HF; specialize (I HF); lia).
+  all: try (intros HF; specialize (I eq_refl); lia).
+  all: try (intros HF; specialize (FC (HFl HF)); congruence).
+  (* the first sentinel goes in: everything sent before close() is already in recv ++ q *)
+  all: intros _.
+  all: assert (HFd : flushed s = true) by
+       (destruct (flushed s) eqn:EF; auto; exfalso; specialize (NFl eq_refl);
+        match goal with E : nth_error (tasks _) _ = Some _ |- _ => pose proof (sumf_nth nflush _ _ _ E) as KK end;
+        meas_simpl; lia).
+  all: specialize (NP (FC HFd)); rewrite HS, app_length in NP; unfold received in NP; rewrite map_length in NP;
+       rewrite (reals_noflush _ EH) in NP; lia.
+Qed.
+
